@@ -9,10 +9,13 @@
 // partitions and therefore bit-identical scores.
 //
 // build (library as built by /verif, no hook needed):
-//   g++ -std=c++17 -O2 -DNDEBUG -I/repo/include -I/repo/src -I/verif/.build/plain/gen -I/usr/include/eigen3 \
-//       /verif/notes/C18_repro.cpp /verif/.build/plain/libnano_all.a -lpthread -o /var/tmp/c18_repro
-// run:  /var/tmp/c18_repro        (prints how often each feature was selected by 2000 identical fits)
-// expected on a correct library: always the same feature.  observed: both feature 0 and feature 2.
+//   g++ -std=c++17 -O2 -DNDEBUG -DNANO_VERIF -DNANO_HAS_FROM_CHARS_FLOAT -I/repo/include -I/repo/src -I/verif/.build/plain/gen \
+//       -I/usr/include/eigen3 /verif/notes/C18_repro.cpp /verif/.build/plain/libnano_all.a -lpthread -o /var/tmp/c18_repro
+//   (the two defines only match the way /verif builds the library; no hook is used)
+// run:  /var/tmp/c18_repro        (prints how often each feature was selected by 2000 identical fits; exit 1 if > 1 feature)
+// expected on a correct library: always the same feature.
+// observed on the unchanged tree:  feature 0 (x) selected 1995 times, feature 2 (ten_times_x) selected 5 times
+// with the tie-break on the feature index in min_reduce: feature 0 selected 2000 times.
 #include <cstdio>
 #include <map>
 #include <nano/dataset.h>
